@@ -89,6 +89,8 @@ func Main() {
 		os.Exit(cmdReplay(os.Args[2:]))
 	case "trace":
 		os.Exit(cmdTrace(os.Args[2:]))
+	case "obsdump":
+		os.Exit(cmdObsDump(os.Args[2:]))
 	default:
 		if f, ok := commands[os.Args[1]]; ok {
 			os.Exit(f(os.Args[2:]))
@@ -246,6 +248,32 @@ func cmdReplay(args []string) int {
 	return 3
 }
 
+// cmdObsDump executes one run seed and prints one line per observable (name=hash).
+func cmdObsDump(args []string) int {
+	fs := flag.NewFlagSet("obsdump", flag.ExitOnError)
+	propID := fs.String("prop", "", "")
+	tier := fs.String("tier", "quick", "")
+	runSeed := fs.Uint64("runseed", 0, "")
+	fs.Parse(args)
+	p := props[*propID]
+	if p == nil {
+		return 2
+	}
+	t := verifsim.NewTape(verifsim.Mix(*runSeed, 1))
+	s := verifsim.NewTape(verifsim.Mix(*runSeed, 2))
+	r := &Run{T: t, S: s, Tier: *tier, Prop: p.ID(), Seed: *runSeed, KeepObs: true}
+	r.Sim = verifsim.NewSim(t, s)
+	func() {
+		defer func() { recover(); r.Sim.Deactivate() }()
+		p.Run(r)
+	}()
+	for _, l := range r.ObsLog {
+		fmt.Println(l)
+	}
+	fmt.Printf("digest=%016x\n", r.Digest())
+	return 0
+}
+
 // cmdTrace executes one run (by worker/run index or by run seed) with tracing on.
 func cmdTrace(args []string) int {
 	fs := flag.NewFlagSet("trace", flag.ExitOnError)
@@ -383,6 +411,14 @@ func cmdCheck(args []string) int {
 		}
 	}
 	extra := map[string]any{}
+	if cp, ok := p.(CrossProcess); ok && cp.CrossProcessRuns() > 0 && !*noEvidence {
+		rp, info, mach := crossProcess(self, p, *tier, *seed, cp.CrossProcessRuns())
+		extra["cross_process_comparison"] = info
+		if rp != nil {
+			bySig[rp.Sig] = rp
+		}
+		machinery = append(machinery, mach...)
+	}
 	if *raceBin != "" {
 		rp, info := runRaceMode(*raceBin, p, *seed, *raceBudget)
 		extra["race_detector_mode"] = info
@@ -426,7 +462,7 @@ func cmdCheck(args []string) int {
 			os.WriteFile(path, b, 0o644)
 		}
 		// a violation must reproduce from its replay file in a fresh process
-		if (rp.T != nil || rp.S != nil) && !*noEvidence && rp.Kind != "data-race" {
+		if (rp.T != nil || rp.S != nil) && !*noEvidence && rp.Kind != "data-race" && rp.Kind != "cross-process" {
 			out, _ := exec.Command(self, "replay", "-quiet", "-file", path).CombinedOutput()
 			if !strings.Contains(string(out), "VIOLATION property="+p.ID()) {
 				machinery = append(machinery, fmt.Sprintf("replay of %s did not reproduce: %s", path, lastLines(string(out), 5)))
@@ -521,6 +557,71 @@ func huntCrash(self string, p Property, tier string, seed uint64, w int, budget 
 	site := PanicSite(msg)
 	return &Replay{Property: p.ID(), HarnessVersion: HarnessVersion, Tier: tier, Seed: rs, Kind: "fatal", Sig: "fatal:" + site, Msg: "process died (fatal runtime error):\n" + msg,
 		Note: "fatal runtime errors cannot be recovered in-process; replay by seed (tapes are regenerated from the seed)"}
+}
+
+// CrossProcess is implemented by properties for which "the same input gives the same
+// output" must also hold between processes (a stored encoding, a golden file): the same run
+// seeds are executed in two further fresh processes and every observable is compared.
+// This catches dependence on per-process state the simulator cannot own (a random hash seed,
+// addresses, the clock).
+type CrossProcess interface{ CrossProcessRuns() int }
+
+func digestsOf(self string, p Property, tier string, seed uint64, n int) (map[uint64]uint64, error) {
+	cmd := exec.Command(self, "worker", "-prop", p.ID(), "-tier", tier, "-seed", strconv.FormatUint(seed, 10), "-w", "0", "-runs", strconv.Itoa(n), "-digests")
+	cmd.Env = append(os.Environ(), "GOMAXPROCS=2")
+	out, err := cmd.Output()
+	if err != nil {
+		return nil, err
+	}
+	res := map[uint64]uint64{}
+	sc := bufio.NewScanner(strings.NewReader(string(out)))
+	sc.Buffer(make([]byte, 1<<20), 1<<30)
+	for sc.Scan() {
+		var m workerMsg
+		if json.Unmarshal(sc.Bytes(), &m) == nil && m.Type == "digest" {
+			res[m.Run] = m.Digest
+		}
+	}
+	return res, nil
+}
+
+func crossProcess(self string, p Property, tier string, seed uint64, n int) (*Replay, map[string]any, []string) {
+	info := map[string]any{"runs_compared": n, "processes": 2, "what": "per-run digest of every observable, same run seeds in two fresh processes"}
+	a, err1 := digestsOf(self, p, tier, seed, n)
+	b, err2 := digestsOf(self, p, tier, seed, n)
+	if err1 != nil || err2 != nil {
+		return nil, info, []string{fmt.Sprintf("cross-process comparison: worker failed (%v, %v)", err1, err2)}
+	}
+	for i := 0; i < n; i++ {
+		if a[uint64(i)] == b[uint64(i)] {
+			continue
+		}
+		rs := RunSeed(seed, p.ID(), 0, i)
+		// name the observable: dump both processes' observables for that run
+		dump := func() []string {
+			out, _ := exec.Command(self, "obsdump", "-prop", p.ID(), "-tier", tier, "-runseed", strconv.FormatUint(rs, 10)).Output()
+			return strings.Split(strings.TrimSpace(string(out)), "\n")
+		}
+		d1, d2 := dump(), dump()
+		what := "(not reproduced by the observable dump)"
+		for k := 0; k < len(d1) && k < len(d2); k++ {
+			if d1[k] != d2[k] {
+				what = strings.SplitN(d1[k], "=", 2)[0]
+				break
+			}
+		}
+		info["differences"] = 1
+		name := strings.TrimSpace(what)
+		if j := strings.LastIndex(name, "["); j > 0 {
+			name = name[:j]
+		}
+		return &Replay{Property: p.ID(), HarnessVersion: HarnessVersion, Tier: tier, Seed: rs, Kind: "cross-process", Sig: "cross-process:" + name,
+			Msg: fmt.Sprintf("run seed %d (worker 0, run %d) produced different observables in two fresh processes; first differing observable: %s. The output depends on per-process state (random seed, addresses, time), so the same input does not always give the same bytes.", rs, i, what),
+			T:   []uint32{}, S: []uint32{},
+			Note: "replay: `verifrun obsdump -prop " + p.ID() + " -runseed <seed>` in two processes and compare"}, info, nil
+	}
+	info["differences"] = 0
+	return nil, info, nil
 }
 
 // runRaceMode executes the free-running mode under the race detector (runtime monitoring,
